@@ -492,7 +492,7 @@ var wrOptSets = []regexp2.RegexOptions{0, 0, 0, regexp2.IgnoreCase, regexp2.Righ
 var wrAtoms = []string{"a", "b", "[ab]", "[^ab]", ".", `\w`, `\d`, "(?:ab)", "(a)", "(?<n>a)", "(?:a|b)", "(?:a|bc|)", "(?:ab|ac)", "(?=a)", "(?!b)", "(?<=a)",
 	"(?<!b)", "(?>a+)", "(?>a|ab)", "abc", "[a-c]x", `\b`, "^", "$", `\G`, `\z`, `\Z`, `\A`, `\B`, "(a)(b)", "(?<x>a)(?<y>b)", "(a(b(c)))", "(?:(a)|b)", "(?i:ab)", "é", "(?i:k)"}
 
-var wrQuants = []string{"{0,0}", "{0}", "{1}", "{1,1}", "{2}", "{3}", "{2,}", "{0,}", "{1,}", "{0,1}", "{0,2}", "{1,3}", "{2,5}", "*", "+", "?", "{0,2147483647}", "{2147483647}", "{1,2147483647}"}
+var wrQuants = []string{"{0,0}", "{0}", "{1}", "{1,1}", "{2}", "{3}", "{2,}", "{0,}", "{1,}", "{0,1}", "{0,2}", "{1,3}", "{2,5}", "*", "+", "?", "{0,2147483647}", "{1,2147483647}", "{2,2147483647}"}
 
 var wrSpecials = []string{
 	`(?<5>a)(?<2>b)(c)\5\2`, `(?<x>a)(?<2>b)\k<x>\2`, `(?<7>a)\7`, `(a)(?<9>b)(c)\3`, `(?<o>\()(?<c-o>\))`, `(?<o>a)+(?<-o>b)+`, `(?<o>a)(?<p>b)(?<q-o>c)\k<q>`,
@@ -589,6 +589,7 @@ func wrCorpus() []wrCase {
 		}
 	}
 	cs = append(cs,
+		wrCase{Pattern: `a{2147483647}`, Source: "corpus"}, wrCase{Pattern: `[ab]{2147483647}?`, Source: "corpus"}, wrCase{Pattern: `(?:ab){2147483647}`, Source: "corpus"},
 		wrCase{Pattern: `(a)(?<x>b)(?<7>c)`, Source: "corpus"},
 		wrCase{Pattern: `(?<01>a)(b)`, Order: true, Source: "corpus"},
 		wrCase{Pattern: `(a)|(b)\2`, Opts: int32(regexp2.ECMAScript), Source: "corpus"},
